@@ -1,6 +1,6 @@
 (** C14 — Skiplist structure and statistics are consistent at quiescence.  Statements only. *)
 From Coq Require Import List Arith ZArith Lia Bool Sorting.Sorted.
-From NV Require Import Base.Sched Skip.Model Skip.Stmts Skip.Proofs Skip.Builder Skip.C18Stmts Skip.C18Proofs.
+From NV Require Import Base.Sched Skip.Model Skip.Stmts Skip.Proofs Skip.Builder Skip.C18Stmts Skip.C18Proofs Skip.HeightStmts Skip.HeightProofs.
 Import ListNotations.
 Open Scope Z_scope.
 
@@ -67,3 +67,24 @@ Theorem C14_assemble_stats : forall segs, items_ok segs ->
     nth l (st_nodes (sts sh)) 0 = Z.of_nat (length (filter (fun e => Nat.eqb (snd e) l) (concat segs))).
 Proof. exact assemble_stats. Qed.
 Print Assumptions C14_assemble_stats.
+
+(** The shared height s.level under ALL programs and ALL schedules (NewLevel: load, then CAS to
+    level+1; the builder's Segment.Add draws its levels through the same NewLevel): it covers every
+    tower and stays within the maximum in every reachable state, never goes down, and is exactly the
+    tallest tower ever allocated.  Searches and unlink passes start at s.level, so a tower above it
+    would be invisible to them. *)
+Theorem C14_height_covers : forall progs sched, let y := runS (init progs) sched in
+  (sl_level (sh y) <= maxLevel)%nat /\
+  forall n, (2 <= n < length (heap (sh y)))%nat -> (lvl (node (sh y) n) <= sl_level (sh y))%nat.
+Proof. exact height_covers. Qed.
+Print Assumptions C14_height_covers.
+
+Theorem C14_height_monotone : forall progs sched i, let y := runS (init progs) sched in
+  (sl_level (sh y) <= sl_level (sh (stepS y i)) <= S (sl_level (sh y)))%nat.
+Proof. exact height_monotone. Qed.
+Print Assumptions C14_height_monotone.
+
+Theorem C14_height_exact : forall progs sched, let y := runS (init progs) sched in
+  sl_level (sh y) = fold_right Nat.max 0%nat (map lvl (skipn 2 (heap (sh y)))).
+Proof. exact height_exact. Qed.
+Print Assumptions C14_height_exact.
